@@ -365,8 +365,19 @@ type nhOnDiskSM struct{ *nhSM }
 
 func (s *nhSM) dir() string { return fmt.Sprintf("/sm%d-%d", s.shard, s.replica) }
 
-func (s *nhSM) persist() error {
+func (s *nhSM) persist() (err error) {
 	b := s.snapshotBytes()
+	if s.c.ssAudit {
+		var st nhKVState
+		_ = json.Unmarshal(b, &st)
+		defer func() {
+			if err == nil {
+				// what the state machine has made durable itself (CompactionTrace: a snapshot record must not
+				// claim more for an on-disk state machine)
+				s.c.rec.emit("Persisted", nhEv{"h": s.h.id, "shard": s.shard, "applied": st.Applied})
+			}
+		}()
+	}
 	fs := s.h.fs
 	if err := fileutil.MkdirAll(s.dir(), fs); err != nil {
 		return err
@@ -424,7 +435,9 @@ func (s *nhOnDiskSM) Update(es []sm.Entry) ([]sm.Entry, error) {
 	for i := range es {
 		es[i].Result = s.apply(es[i])
 	}
-	if atomic.LoadUint32(&s.jit)%7 == 0 {
+	// the state machine persists on its own now and then (it may); rarely in the snapshot scenarios, where what
+	// matters is what Sync has made durable when a snapshot is recorded
+	if j := atomic.LoadUint32(&s.jit); (!s.c.ssAudit && j%7 == 0) || (s.c.ssAudit && j%61 == 0) {
 		if err := s.persist(); err != nil {
 			panic(err)
 		}
